@@ -4,6 +4,8 @@ import UflVerif.Props.C05
 import UflVerif.Props.C06
 import UflVerif.Props.C07
 import UflVerif.Props.C08
+import UflVerif.Props.C10
+import UflVerif.Props.C10Rename
 import UflVerif.Props.C13
 import UflVerif.Props.C19
 import UflVerif.Props.C19Dispatch
